@@ -26,7 +26,7 @@ type KnownFinding struct {
 
 var safetyKinds = map[string]bool{"nil-deref": true, "nil-arg": true, "nil-elem": true, "index": true, "slice-bounds": true,
 	"type-assert": true, "div-zero": true, "nil-map-write": true, "make-len": true, "alloc-bounded": true, "panic": true,
-	"boxed-nil": true, "nil-capture": true}
+	"boxed-nil": true, "nil-capture": true, "alias": true, "borrow": true}
 
 type PropConfig struct {
 	ID             string   `json:"id"`
@@ -207,6 +207,8 @@ func runCheck(id, repo, verif, tier string, seed int, freeze bool, keep string, 
 			fvcs = append(fvcs, d.DisciplineHeaderName())
 		case "guards":
 			fvcs = append(fvcs, d.DisciplineGuards(cfg.GuardStructs))
+		case "frames":
+			fvcs = append(fvcs, d.DisciplineFrames())
 		default:
 			engineErrs = append(engineErrs, "unknown discipline "+disc)
 		}
